@@ -14,8 +14,9 @@ def main():
     a = ap.parse_args()
     seed = int(os.environ.get('VERIF_SEED', '0') or 0)
     import yaql
-    if not os.path.abspath(yaql.__file__).startswith('/repo/'):
-        print('machinery failure: yaql imported from %s, not /repo' % yaql.__file__)
+    repo = os.path.abspath(os.environ.get('VERIF_REPO', '/repo'))
+    if not os.path.abspath(yaql.__file__).startswith(repo + '/'):
+        print('machinery failure: yaql imported from %s, not %s' % (yaql.__file__, repo))
         sys.exit(2)
     from vf import evidence, findings
     mod = importlib.import_module('vf.props.' + a.pid.lower())
